@@ -84,17 +84,18 @@ Section VC.
     compute (QAnd a b) root vals st = (X, st3) ->
     good st1 -> good st2 ->
     vl_ok n (lget st1 L) -> vl_ok n (lget st2 R) ->
-    lget st3 X = and_lists (lget st1 L) (lget st2 R) /\ good st3.
+    lget st3 X = and_lists (lget st1 L) (lget st2 R) /\ good st3 /\ (st3 = st1 \/ st3 = st2).
   Proof.
     intros L st1 R st2 X st3 Ha Hb Hab G1 G2 VL VR.
     rewrite compute_and_eq, Ha in Hab. cbv zeta in Hab. unfold and_lists.
     destruct (len1 (lget st1 L)) eqn:E1.
     - destruct (isE (hd_entry (lget st1 L))) eqn:Eh.
-      + inversion Hab; subst. split; [reflexivity|assumption].
-      + rewrite Hb in Hab. inversion Hab; subst. split; [reflexivity|assumption].
+      + inversion Hab; subst. split; [reflexivity|split; [assumption|left; reflexivity]].
+      + rewrite Hb in Hab. inversion Hab; subst. split; [reflexivity|split; [assumption|right; reflexivity]].
     - rewrite Hb in Hab. cbv zeta in Hab.
       destruct (len1 (lget st2 R)) eqn:E2.
-      + destruct (isE (hd_entry (lget st2 R))) eqn:Eh; inversion Hab; subst; split; try assumption; try reflexivity.
+      + destruct (isE (hd_entry (lget st2 R))) eqn:Eh; inversion Hab; subst;
+          (split; [|split; [assumption|right; reflexivity]]); try reflexivity.
         apply lget_good; assumption.
       + destruct (good_len1 st1 L G1 E1) as [l HL]. subst L. cbn [lget] in *.
         assert (Ll : List.length l = n) by (destruct VL as [|V]; [assumption|unfold len1 in E1; rewrite V in E1; discriminate]).
@@ -103,7 +104,7 @@ Section VC.
         destruct (and_merge l (lget st2 R) 0) as [[m ws] hv]. destruct Hm as [Hm Hh].
         rewrite Ll, Lr, Nat.ltb_irrefl in Hab. cbn [commit] in Hab.
         rewrite <- Hm, <- Hh.
-        destruct hv; inversion Hab; subst; split; try assumption; try reflexivity.
+        destruct hv; inversion Hab; subst; (split; [|split; [assumption|right; reflexivity]]); try reflexivity.
         destruct G2 as [G2 _]. exact G2.
   Qed.
 
@@ -114,17 +115,18 @@ Section VC.
     compute (QOr a b) root vals st = (X, st3) ->
     good st1 -> good st2 ->
     vl_ok n (lget st1 L) -> vl_ok n (lget st2 R) ->
-    lget st3 X = or_lists (lget st1 L) (lget st2 R) /\ good st3.
+    lget st3 X = or_lists (lget st1 L) (lget st2 R) /\ good st3 /\ (st3 = st1 \/ st3 = st2).
   Proof.
     intros L st1 R st2 X st3 Ha Hb Hab G1 G2 VL VR.
     rewrite compute_or_eq, Ha in Hab. cbv zeta in Hab. unfold or_lists.
     destruct (len1 (lget st1 L)) eqn:E1.
     - destruct (isE (hd_entry (lget st1 L))) eqn:Eh.
-      + rewrite Hb in Hab. inversion Hab; subst. split; [reflexivity|assumption].
-      + inversion Hab; subst. split; [reflexivity|assumption].
+      + rewrite Hb in Hab. inversion Hab; subst. split; [reflexivity|split; [assumption|right; reflexivity]].
+      + inversion Hab; subst. split; [reflexivity|split; [assumption|left; reflexivity]].
     - rewrite Hb in Hab. cbv zeta in Hab.
       destruct (len1 (lget st2 R)) eqn:E2.
-      + destruct (isE (hd_entry (lget st2 R))) eqn:Eh; inversion Hab; subst; split; try assumption; try reflexivity.
+      + destruct (isE (hd_entry (lget st2 R))) eqn:Eh; inversion Hab; subst;
+          (split; [|split; [assumption|right; reflexivity]]); try reflexivity.
         apply lget_good; assumption.
       + destruct (good_len1 st1 L G1 E1) as [l HL]. subst L. cbn [lget] in *.
         assert (Ll : List.length l = n) by (destruct VL as [|V]; [assumption|unfold len1 in E1; rewrite V in E1; discriminate]).
@@ -132,7 +134,7 @@ Section VC.
         pose proof (or_merge_spec l (lget st2 R) 0 ltac:(lia)) as Hm.
         destruct (or_merge l (lget st2 R) 0) as [m ws]. cbn [fst] in Hm.
         rewrite Ll, Lr, Nat.ltb_irrefl in Hab. cbn [commit] in Hab.
-        inversion Hab; subst. split; [reflexivity|assumption].
+        inversion Hab; subst. split; [reflexivity|split; [assumption|right; reflexivity]].
   Qed.
 
   Lemma compute_not n a root vals st :
@@ -140,18 +142,18 @@ Section VC.
     compute a root vals st = (L, st1) ->
     compute (QNot a) root vals st = (X, st2) ->
     good st1 -> vl_ok n (lget st1 L) ->
-    lget st2 X = not_list (lget st1 L) /\ good st2.
+    lget st2 X = not_list (lget st1 L) /\ good st2 /\ st2 = st1.
   Proof.
     intros L st1 X st2 Ha Hn G1 VL.
     rewrite compute_not_eq, Ha in Hn. cbv zeta in Hn. unfold not_list.
     destruct (len1 (lget st1 L)) eqn:E1.
     - destruct G1 as [Ge Gf].
-      destruct (isE (hd_entry (lget st1 L))); inversion Hn; subst; cbn [lget]; split; try assumption; try (split; assumption).
+      destruct (isE (hd_entry (lget st1 L))); inversion Hn; subst; cbn [lget]; (split; [assumption|split; [split; assumption|reflexivity]]).
     - destruct (good_len1 st1 L G1 E1) as [l HL]. subst L. cbn [lget] in *.
       pose proof (not_flip_spec l 0) as Hm.
       destruct (not_flip l 0) as [[m ws] hv]. destruct Hm as [Hm Hh]. cbn [commit] in Hn.
       rewrite <- Hm, <- Hh.
-      destruct hv; inversion Hn; subst; split; try assumption; try reflexivity.
+      destruct hv; inversion Hn; subst; (split; [|split; [assumption|reflexivity]]); try reflexivity.
       destruct G1 as [G1 _]. exact G1.
   Qed.
 End VC.
